@@ -75,7 +75,7 @@ theorem C04_partial_ckpt (h : List Op) (hwf : GraphSpec.wellFormed h = true)
   obtain ⟨s'', hclose, hP''⟩ := hP.close
   have sc : ∀ {a b : Engine}, Eqv Cfg.current a b → SameContent b a := by
     intro a b hE
-    obtain ⟨r1, _, _, r4, r5, r6, r7, _, _, r10, r11, r12, _, _⟩ := hE.reads
+    obtain ⟨r1, _, _, r4, r5, r6, r7, _, _, _, r10, r11, r12, _, _⟩ := hE.reads
     exact ⟨r1, fun n => congrFun r10 n, fun n => congrFun r11 n, fun x => congrFun r12 x, r6, r7, r4, r5⟩
   exact ⟨s, s', s'', u, hrun, hopen, hclose, sc (hP'.eqv.trans hP.eqv.symm), sc (hP''.eqv.trans hP.eqv.symm),
     hrunu, hP.sim.reads _, sc hP.eqv⟩
